@@ -234,8 +234,15 @@ def call_sites():
                 if len(n.ops) != 1 or not isinstance(n.ops[0], ast.NotEq):
                     raise ValueError(f"{f.name}:{n.lineno}: _token_of_node(...) is compared in another way than `!=`")
                 r = n.comparators[0]
-                normalized = (isinstance(r, ast.Call) and isinstance(r.func, ast.Name) and r.func.id == "list" and len(r.args) == 1 and isinstance(r.args[0], ast.Call)
-                              and isinstance(r.args[0].func, ast.Name) and r.args[0].func.id == "normalize")
+
+                def is_norm(x):
+                    return (isinstance(x, ast.Call) and isinstance(x.func, ast.Name) and x.func.id == "list" and len(x.args) == 1 and isinstance(x.args[0], ast.Call)
+                            and isinstance(x.args[0].func, ast.Name) and x.args[0].func.id == "normalize")
+                normalized = is_norm(r)
+                if isinstance(r, ast.Name):
+                    # a local variable: normalized if every assignment to this name in the file has the normalized form
+                    assigns = [a.value for a in ast.walk(tree) if isinstance(a, ast.Assign) and any(isinstance(t, ast.Name) and t.id == r.id for t in a.targets)]
+                    normalized = bool(assigns) and all(is_norm(v) for v in assigns)
                 sites.append((str(f.relative_to(root)), n.lineno, normalized))
             elif isinstance(n, ast.Call) and isinstance(n.func, ast.Attribute) and n.func.attr == "_token_of_node" and f.name != "_source_file.py":
                 pass
